@@ -8,7 +8,7 @@
 From Coq Require Import ZArith List Bool.
 From GV.Gen Require Import Configs.
 From GV.Model Require Import Check.
-From GV.Lemmas Require Import GridL RandL TransL C14L.
+From GV.Lemmas Require Import GridL RandL TransL C14L C13W C14W.
 Import ListNotations.
 Open Scope Z_scope.
 
@@ -28,6 +28,15 @@ Proof. exact can_walk_sound. Qed.
 Theorem C14_walkable_meaning : forall g terminal goal q, walkable g terminal goal q = true ->
   in_grid g q = true /\ o_blocks_movement (lookupH g q) = false /\ (terminal (lookupH g q) = false \/ q = goal).
 Proof. exact walkable_spec. Qed.
+
+(* GENERAL (no bound): every initial state of `empty` -- every shape >= 4x4, every flag combination, every random outcome -- is winnable:
+   some sequence of move actions of the real move/turn dynamics walks the agent to THE exit, visiting floor cells only on the way *)
+Theorem C14_empty_winnable : forall h w ra re own own' r, 4 <= h -> 4 <= w -> Leaf (reset_empty h w ra re own) r ->
+  exists s pe acts path, r = Ok s /\ (forall q, In q (cells_at (sgrid s) (is_ty ty_Exit)) <-> q = pe) /\
+    walk (walkable (sgrid s) (is_ty ty_Exit) pe) (spos s) path /\ last path (spos s) = pe /\
+    length acts = length path /\ Forall (fun a => is_move a = true) acts /\
+    trace [TMoveAgent; TTurnAgent] own' s acts = Ret (map (set_pos s) path).
+Proof. exact empty_winnable. Qed.
 
 (* complete outcome trees: every initial state of these parameter sets is winnable by walking *)
 Definition walk_only_enumerable : list rparams :=
